@@ -38,7 +38,9 @@ GROUP = dict(
            dict(id='theory.types', kind='raw', text=_c.theory_text('types.rs')),
            dict(id='theory.cksum', kind='raw', text=_c.theory_text('cksum.rs')),
            _c.unit_of('cksum', 'T.Checksum'), _c.unit_of('cksum', 'spec.Checksum'),
-           _c.contract_only('cksum', 'U-cktext.checksum_to_text'),
+           dict(id='theory.tryfrom', kind='raw', text=_c.theory_text('tryfrom.rs')),
+           _c.unit_of('cksum', 'spec.cktext'), _c.contract_only('cksum', 'U-cktext.checksum_to_text'),
+           _c.unit_of('cksum', 'spec.ckparse'), _c.contract_only('cksum', 'U-ckparse.checksum_from_text'),
            _c.unit_of('qual', 'T.KnownQualifierKey'),
            dict(id='T.GenericPurlBuilder', kind='struct', name='GenericPurlBuilder', file=F),
            dict(id='T.GenericPurl', kind='struct', name='GenericPurl', file='purl/src/lib.rs'),
@@ -60,6 +62,7 @@ impl Default for PurlParts {
            _c.contract_only('qual', 'U-qmap.clear'),
            _c.contract_only('qual', 'U-qmap.insert_typed'),
            _c.contract_only('qual', 'U-qmap.remove_typed'),
+           _c.contract_only('qual', 'U-qmap.try_get_typed'),
            dict(id='U-set.new', file=F, fn='new', ctx=_B, wrap=_W, properties=['C09'],
                 contract='''        ensures r.package_type == package_type,
             r.parts.namespace@.len() == 0, r.parts.version@.len() == 0, r.parts.subpath@.len() == 0,
@@ -111,12 +114,12 @@ impl Default for PurlParts {
                 sig_rw=[('R0', r'<T as PurlShape>::Error', 'T::Error', '*')],
                 rw=[('R0', r'crate::PurlField::Name', 'PurlField::Name', '*'),
                     ('R5', r'self\.parts\.qualifiers\.retain\(\|_, v\| !v\.is_empty\(\)\);', 'x_retain_nonempty(&mut self.parts.qualifiers);', '*'),
-                    ('R5', r'self\.parts\.qualifiers\.try_get_typed::<Checksum>\(\)', 'x_try_get_typed_checksum(&self.parts.qualifiers)', '*'),
-                    ('R2', r'SmallString::try_from\(checksum\)', 'checksum_to_text(checksum)', '*'),
+                    # R9: the call names the stub TryFrom explicitly (the std prelude also has a TryFrom in scope)
+                    ('R9', r'SmallString::try_from\(checksum\)', '<SmallString as TryFrom<Checksum>>::try_from(checksum)', '*'),
                     # R8: `e?` written out as its definition where the converted error value matters to the contract
-                    ('R8', r'(x_try_get_typed_checksum\(&self\.parts\.qualifiers\))\?',
+                    ('R8', r'(self\.parts\.qualifiers\.try_get_typed::<Checksum>\(\))\?',
                      r'(match \1 { Ok(v_) => v_, Err(e_) => return Err(From::from(e_)) })', '*'),
-                    ('R8', r'(checksum_to_text\(checksum\))\?',
+                    ('R8', r'(<SmallString as TryFrom<Checksum>>::try_from\(checksum\))\?',
                      r'(match \1 { Ok(v_) => v_, Err(e_) => return Err(From::from(e_)) })', '*')],
                 hints=[(r'self\.package_type\.finish\(&mut self\.parts\)\?;', 'before',
                         '        let ghost t0 = self.package_type;\n        let ghost p0 = self.parts;'),
